@@ -49,7 +49,7 @@ def _run_task(args):
             conf_small2 = None
             if task.get("configure_small2"):
                 conf_small2 = getattr(importlib.import_module(task["module"]), task["configure_small2"])
-            out = R.run_contract(inst, timeout_ms, conf, conf_small, conf_small2)
+            out = R.run_contract(inst, min(timeout_ms, getattr(inst, "max_timeout_ms", timeout_ms)), conf, conf_small, conf_small2)
         elif task["kind"] == "lemma":
             out = R.run_lemma(inst, timeout_ms, conf)
         elif task["kind"] in ("scan", "bounded", "custom"):
@@ -71,6 +71,60 @@ def _run_task(args):
         out["variant"] = task["variant"]
     out.setdefault("secs", round(time.time() - t0, 3))
     return out
+
+
+def _child(conn, args):
+    try:
+        conn.send(_run_task(args))
+    except BaseException as e:  # noqa: BLE001
+        conn.send({"task": f"{args[0].get('module')}.{args[0].get('name')}", "kind": args[0].get("kind"), "results": [], "info": {},
+                   "module": args[0].get("module"), "name": args[0].get("name"),
+                   "error": {"type": "crash", "msg": f"{type(e).__name__}: {e}"}})
+    finally:
+        conn.close()
+
+
+def _run_all(arglist, nproc, hard_s):
+    ctx = mp.get_context("fork")
+    results = [None] * len(arglist)
+    running = {}
+    nxt = 0
+    while nxt < len(arglist) or running:
+        while nxt < len(arglist) and len(running) < nproc:
+            rd, wr = ctx.Pipe(False)
+            p = ctx.Process(target=_child, args=(wr, arglist[nxt]))
+            p.start()
+            wr.close()
+            running[nxt] = (p, rd, time.time())
+            nxt += 1
+        progressed = False
+        for i, (p, rd, t0) in list(running.items()):
+            task = arglist[i][0]
+            got = None
+            try:
+                if rd.poll(0):
+                    got = rd.recv()
+            except (EOFError, OSError):
+                got = {"task": f"{task.get('module')}.{task.get('name')}", "kind": task.get("kind"), "results": [], "info": {},
+                       "module": task.get("module"), "name": task.get("name"),
+                       "error": {"type": "crash", "msg": "worker process died without a result"}}
+            if got is None and time.time() - t0 > hard_s:
+                p.terminate()
+                got = {"task": f"{task.get('module')}.{task.get('name')}", "kind": task.get("kind"), "results": [], "info": {},
+                       "module": task.get("module"), "name": task.get("name"),
+                       "error": {"type": "unsupported", "msg": f"wall-clock limit of {hard_s} s for one task exceeded (a solver call did not "
+                                                               "come back); nothing is concluded from it"}}
+            if got is not None:
+                results[i] = got
+                p.join(5)
+                if p.is_alive():
+                    p.kill()
+                rd.close()
+                del running[i]
+                progressed = True
+        if not progressed:
+            time.sleep(0.05)
+    return results
 
 
 # ----------------------------------------------------------------------------- native side
@@ -110,9 +164,9 @@ def check(prop, tier, seed):
     timeout_ms = int(os.environ.get("VERIF_TIMEOUT_MS", "30000" if tier == "quick" else "120000"))
     tasks = P.tasks(tier)
     nproc = min(len(tasks), int(os.environ.get("VERIF_JOBS", "16"))) or 1
-    ctx = mp.get_context("fork")
-    with ctx.Pool(nproc) as pool:
-        outs = pool.map(_run_task, [(t, timeout_ms, tier, seed) for t in tasks], chunksize=1)
+    # one process per task, with a hard wall-clock limit: a solver call that ignores its time-out must not hang the check
+    hard_s = int(os.environ.get("VERIF_TASK_LIMIT_S", "1200" if tier == "quick" else "3600"))
+    outs = _run_all([(t, timeout_ms, tier, seed) for t in tasks], nproc, hard_s)
 
     # evidence of the registered checks is written for /repo only; development runs against a scratch
     # copy (VERIF_REPO) must not overwrite it
